@@ -51,6 +51,7 @@ import (
 	"io"
 	"math/rand"
 	"os"
+	"reflect"
 	"sort"
 	"strconv"
 	"strings"
@@ -58,6 +59,7 @@ import (
 	"sync/atomic"
 	"testing"
 	"time"
+	"unsafe"
 
 	"google.golang.org/grpc/balancer"
 	"google.golang.org/grpc/codes"
@@ -420,7 +422,25 @@ func (h *vPool) digest() string {
 	return fmt.Sprintf("dg aff=%s fb=%s st=%s refs=%s rfr=%s slots=%s ev=%d/%d/%d aggr=%s rr=%d now=%d",
 		kvs(gb.affinityMap), kvs(gb.fallbackMap), strings.Join(sts, ","), strings.Join(refs, ","), strings.Join(rfr, ","),
 		strings.Join(slots, ";"), gb.csEvltr.numReady, gb.csEvltr.numConnecting, gb.csEvltr.numTransientFailure,
-		stName(gb.state), gb.rrRefId, atomic.LoadInt64(&verifClock))
+		stName(gb.state), vCursor(gb), atomic.LoadInt64(&verifClock))
+}
+
+// vCursor reads the round-robin cursor, vCursorAdd advances it, whatever unsigned type the field has.
+func vCursor(gb *gcpBalancer) uint64 {
+	return reflect.ValueOf(gb).Elem().FieldByName("rrRefId").Uint()
+}
+
+func vCursorAdd(gb *gcpBalancer, d uint64) {
+	f := reflect.ValueOf(gb).Elem().FieldByName("rrRefId")
+	p := unsafe.Pointer(f.UnsafeAddr())
+	switch f.Kind() {
+	case reflect.Uint32:
+		atomic.AddUint32((*uint32)(p), uint32(d))
+	case reflect.Uint64:
+		atomic.AddUint64((*uint64)(p), d)
+	default:
+		panic("rrRefId: unexpected kind " + f.Kind().String())
+	}
 }
 
 func argsOf(toks []string) map[string]string {
@@ -648,6 +668,15 @@ func (h *vPool) exec(line string) string {
 		case <-time.After(3 * time.Second):
 			res = "HANG"
 		}
+	case "rrjump":
+		// stand-in for d round-robin BIND calls that were picked and have completed: the only trace such a call
+		// leaves in the balancer is one increment of the cursor (2^32 real picks do not fit in a test)
+		d, err := strconv.ParseUint(a["d"], 10, 64)
+		if err != nil || len(h.held) > 0 {
+			return "bad-op"
+		}
+		vCursorAdd(h.gb, d)
+		res = "ok"
 	case "pick2":
 		res = h.doPick2(a)
 	case "done2":
@@ -746,13 +775,10 @@ func (h *vPool) exec(line string) string {
 	return strings.Join(append(evs, h.digest()), " ; ")
 }
 
+// pickerBusy: a stopped pick holds the balancer's pick mutex (F31): no pick can run meanwhile, on whichever
+// picker (two-picker pick2 is what shows that the mutex is balancer-wide).
 func (h *vPool) pickerBusy(pn int) bool {
-	for _, hp := range h.held {
-		if hp.pn == pn {
-			return true
-		}
-	}
-	return false
+	return len(h.held) > 0
 }
 
 func (h *vPool) doPick(a map[string]string, hold bool) string {
@@ -785,7 +811,7 @@ func (h *vPool) doPick(a map[string]string, hold bool) string {
 	case "gcpnoreply":
 		ctx = context.WithValue(ctx, gcpKey, &gcpContext{reqMsg: req})
 	}
-	rrBefore := h.gb.rrRefId
+	rrBefore := vCursor(h.gb)
 	var parked chan chan struct{}
 	if hold && verifHookInstalled {
 		parked = verifHoldParked
@@ -826,11 +852,11 @@ func (h *vPool) doPick(a map[string]string, hold bool) string {
 			return h.recordPlaced(c, r)
 		case <-time.After(20 * time.Millisecond):
 		}
-		rr := h.gb.rrRefId
+		rr := vCursor(h.gb)
 		if rr == rrBefore || len(h.gb.scRefList) == 0 {
 			return "HANG"
 		}
-		c.ref = h.gb.scRefList[rr%uint32(len(h.gb.scRefList))]
+		c.ref = h.gb.scRefList[rr%uint64(len(h.gb.scRefList))]
 		h.waiting = append(h.waiting, c)
 		return "waiting"
 	case <-time.After(3 * time.Second):
@@ -1744,17 +1770,6 @@ func (g *vGen) scenarioFallbackRefresh() {
 			h.pickerBusy(cur()) || h.pickerBusy(cur()-1) || r.Intn(2) == 0 {
 			return ""
 		}
-		// with several READY channels to choose from, which stand-in the second call gets depends on whether the first
-		// one's stream was counted yet (counting is per picker): only the unambiguous case is generated
-		nReady := 0
-		for _, st := range h.gb.scStates {
-			if st == connectivity.Ready {
-				nReady++
-			}
-		}
-		if nReady != 1 {
-			return ""
-		}
 		g.nextCall += 2
 		return fmt.Sprintf("pool pick2 a=%d b=%d picker=%d picker2=%d m=bound req=k1/ req2=k2/", g.nextCall-1, g.nextCall, cur(), cur()-1)
 	})
@@ -2161,20 +2176,17 @@ func (g *vGen) next(i int) string {
 			g.nextCall += 2
 			line = fmt.Sprintf("pool pick2 a=%d b=%d picker=%d", g.nextCall-1, g.nextCall, pn)
 			if g.profile == "fallback" || g.profile == "affinity" || r.Intn(4) == 0 {
-				// two keyed calls at once, possibly through two different pickers (each picker has its own mutex)
-				// (only keys that are bound: a call without a bound key goes through the least-loaded scan, which is
-				// atomic per picker only — two pickers may interleave there, by design)
+				// two keyed calls at once, possibly through two different pickers: bound keys, keys that are not
+				// bound (least-loaded scan) and keys whose home is down (stand-in = least loaded) alike — scan and
+				// count are one step for all pickers of the balancer (F31)
 				pn2 := r.Intn(len(h.cc.pubs))
 				k1, k2 := g.boundKey(), g.boundKey()
-				_, b1 := h.gb.affinityMap[k1]
-				_, b2 := h.gb.affinityMap[k2]
-				homesUp := true
-				if b1 && b2 {
-					homesUp = h.gb.scStates[h.gb.affinityMap[k1]] == connectivity.Ready && h.gb.scStates[h.gb.affinityMap[k2]] == connectivity.Ready
-				}
-				if !h.pickerBusy(pn2) && k1 != "" && k2 != "" && b1 && b2 && (homesUp || !h.gb.cfg.GetChannelPool().GetFallbackToReady()) {
+				if !h.pickerBusy(pn2) && k1 != "" && k2 != "" {
 					line += fmt.Sprintf(" picker2=%d m=bound req=%s/ req2=%s/", pn2, k1, k2)
 				}
+			} else if r.Intn(2) == 0 {
+				// two plain picks through two pickers, one of them possibly superseded (F31)
+				line += fmt.Sprintf(" picker2=%d", r.Intn(len(h.cc.pubs)))
 			}
 		case w < 38:
 			line = g.pickLine()
@@ -2201,6 +2213,15 @@ func (g *vGen) next(i int) string {
 			line = "pool reserr"
 			if r.Intn(3) == 0 {
 				line = "pool other"
+			}
+			if h.gb.cfg.GetChannelPool().GetBindPickStrategy() == pb.ChannelPoolConfig_ROUND_ROBIN && len(h.held) == 0 && r.Intn(3) == 0 {
+				// fast-forward the round-robin cursor to just below a multiple of 2^32 (F32): the next BIND picks
+				// straddle the point where a 32-bit cursor would wrap around
+				cur := vCursor(h.gb) + 1 // BIND picks so far
+				d := (1<<32 - uint64(1+r.Intn(3)) - cur%(1<<32)) % (1 << 32)
+				if d > 0 && cur < 1<<40 {
+					line = fmt.Sprintf("pool rrjump d=%d", d)
+				}
 			}
 		case w < 97:
 			if g.profile == "chaos" || g.profile == "refresh" || r.Intn(5) == 0 {
